@@ -17,8 +17,8 @@ from ..order import Interp
 from ..algebra_lin import linear_form
 
 COL = "typhon/collocations/collocator.py"
-EXPECT = {"C04.empty": 4, "C04.temporal": 5, "C04.window": 4, "C04.nan": 7, "C04.swap": 4, "C04.offsets": 7,
-          "C04.cache": 4, "C04.interval": 1}
+EXPECT = {"C04.empty": 4, "C04.temporal": 6, "C04.window": 4, "C04.nan": 7, "C04.swap": 4, "C04.offsets": 7,
+          "C04.cache": 4, "C04.interval": 1, "C04.grid": 1}
 
 
 def rule_empty(ctx):
@@ -56,14 +56,34 @@ def rule_temporal(ctx):
             argok = [norm(a) for a in c.args] in ([pt, st_], [st_, pt])
     if ivname is None:
         raise AnalysisError("_temporal_check: intervals not computed by _get_intervals")
+    # unit wrappers of the threshold are the identity on the time axis
+    from ..core import clone as _clone
+
+    class _Unwrap(ast.NodeTransformer):
+        def visit_Call(self, n):
+            n = self.generic_visit(n)
+            if isinstance(n.func, ast.Attribute) and n.func.attr in ("to_timedelta64", "to_numpy", "to_pytimedelta") and not n.args:
+                return n.func.value
+            if (dotted(n.func) or "").split(".")[-1] in ("Timedelta", "timedelta64", "to_timedelta") and len(n.args) == 1:
+                return n.args[0]
+            return n
+    mask_u = ast.fix_missing_locations(_Unwrap().visit(_clone(mask_e)))
+    uses_iv = any(isinstance(n_, ast.Name) and n_.id == ivname for n_ in ast.walk(mask_u))
     res = {}
-    for dt, m in itertools.product(range(3), repeat=2):
-        res[(dt, m)] = bool(Interp({ivname: dt, mi: m}).ev(mask_e))
-    ok = all(res[(dt, m)] == (dt < m) for dt, m in res) and argok
+    for t1, t2, m in itertools.product(range(3), repeat=3):
+        res[(t1, t2, m)] = bool(Interp({ivname: abs(t1 - t2), pt: t1, st_: t2, mi: m}).ev(mask_u))
+    ok = all(res[k] == (abs(k[0] - k[1]) < k[2]) for k in res) and argok
     ctx.ob("Collocator._temporal_check.mask", ok, "mask = %s with %s = _get_intervals(primary_time, secondary_time)" % (norm(mask_e), ivname),
-           "interval < max_interval (strictly smaller) on all orderings of (dt, max_interval)", node=rets[0], func=tc,
-           witness=None if ok else {"truth table (dt, mi)": {str(k): v for k, v in res.items()}})
-    ctx.models.append({"rule": "C04.temporal", "cases": 9, "symbols": ["dt", "mi"], "exhaustive": True})
+           "|t1 - t2| < max_interval (strictly smaller) on all orderings of (t1, t2, max_interval)", node=rets[0], func=tc,
+           witness=None if ok else {"truth table (t1, t2, mi)": {str(k): v for k, v in res.items() if v != (abs(k[0] - k[1]) < k[2])}})
+    ctx.models.append({"rule": "C04.temporal", "cases": 27, "symbols": ["t1", "t2", "mi"], "exhaustive": True})
+    # the comparison uses the time difference at full resolution: the stored intervals are whole seconds (rule C04.interval), and a
+    # difference of 10.7 s floored to 10 s passes a max_interval of 10.5 s
+    gi = ctx.func(COL, "Collocator._get_intervals")
+    floored = any(isinstance(c_.args[0], ast.Constant) and "[s]" in str(c_.args[0].value) for c_ in calls_in(gi.node, "astype") if c_.args)
+    ctx.ob("Collocator._temporal_check.resolution", not (uses_iv and floored), "mask compares %s" % ("the stored intervals (floored to whole seconds)" if uses_iv else "the time difference itself"),
+           "|t1 - t2| at the resolution of the time stamps against max_interval: pairs with |dt| >= max_interval are not let through by flooring |dt| first",
+           node=rets[0], func=tc, witness=None if not (uses_iv and floored) else {"|dt|": "10.7 s", "max_interval": "10.5 s", "reported": True})
     ok2 = isinstance(iv_e, ast.Subscript) and norm(iv_e.value) == ivname and norm(iv_e.slice) == norm(rets[0].value.elts[0])
     ctx.ob("Collocator._temporal_check.intervals", ok2, "second result = %s" % norm(iv_e), "the intervals filtered by the same mask", node=rets[0], func=tc)
     # collocate(): final _create_return
@@ -713,6 +733,36 @@ def rule_interval(ctx):
     ctx.ob("Collocator._get_intervals", ok, "return %s" % (norm(rets[0].value) if rets else None), "abs(time1 - time2) as timedelta64[s]", node=f.node, func=f)
 
 
+def rule_grid(ctx):
+    """Scan-line x scan-position input is stacked to one `collocation` MultiIndex.  xarray refuses to overwrite a MultiIndex coordinate with
+    plain labels ("would corrupt the following index"): it has to be dropped (its levels are saved first) before the coordinate is relabelled."""
+    ctx.rule("C04.grid", "T1 api", "_create_return: the stacked MultiIndex is dropped before `collocation` gets plain labels")
+    f = ctx.func(COL, "Collocator._create_return")
+    flow = Flow(f)
+    relabel = [st for st in flow.stmts if isinstance(st, ast.Assign) and isinstance(st.targets[0], ast.Subscript)
+               and str(norm(st.targets[0].slice)).strip("'\"") == "collocation" and calls_in(st.value, "arange")]
+    if len(relabel) != 1:
+        raise AnalysisError("_create_return: the statement that relabels the collocation coordinate was not found")
+    flags = [st for st in flow.stmts if isinstance(st, ast.Assign) and isinstance(st.targets[0], ast.Name) and "MultiIndex" in str(norm(st.value))]
+    if not flags:
+        ctx.ob("Collocator._create_return.multiindex", True, "no MultiIndex handling (inputs are flattened otherwise)", "nothing to drop", node=relabel[0], func=f)
+        return
+    flag = flags[0].targets[0].id
+    drops = []
+    for st in flow.stmts:
+        if isinstance(st, ast.Assign) and any((c_.func.attr if isinstance(c_.func, ast.Attribute) else (dotted(c_.func) or "")) in ("drop_vars", "reset_index", "drop_indexes", "reset_coords") and
+                                              any("collocation" in str(norm(a_)) for a_ in list(c_.args) + [k_.value for k_ in c_.keywords]) for c_ in calls_in(st.value)):
+            from ..flow import guard_chain
+            gc = guard_chain(st)
+            under_flag = any(str(norm(t_)) == flag and pol_ for t_, pol_ in gc)
+            if under_flag and flow._order(st) < flow._order(relabel[0]):
+                drops.append(st)
+    ctx.ob("Collocator._create_return.multiindex", bool(drops), "under `%s` before the relabelling: %s" % (flag, [str(norm(d_))[:70] for d_ in drops] or "nothing is dropped"),
+           "the MultiIndex coordinate is dropped (drop_vars('collocation') / reset_index) before output[name]['collocation'] = np.arange(...): every gridded input raised "
+           "ValueError (cannot set or update variable(s) 'collocation', which would corrupt the following index)", node=relabel[0], func=f,
+           witness=None if drops else {"primary": "time(scnline), lat/lon(scnline, scnpos)", "collocate": "ValueError as soon as one pair exists"})
+
+
 def run(ctx):
-    for r in (rule_empty, rule_temporal, rule_window, rule_nan, rule_swap, rule_offsets, rule_cache, rule_interval, rule_reuse):
+    for r in (rule_empty, rule_temporal, rule_window, rule_nan, rule_swap, rule_offsets, rule_cache, rule_interval, rule_reuse, rule_grid):
         ctx.attempt(r, ctx)
